@@ -32,8 +32,9 @@ CONSTANTS CmN,       \* curve sizes n for kind "cm"
           Variant,   \* "ok" = the code; "reclaim" / "fpraw" = seeded bugs (negative instances)
           Emit
 
-VARIABLES kind, n, ys, K, E, t, j, used, tp, fn, pc
-vars == <<kind, n, ys, K, E, t, j, used, tp, fn, pc>>
+VARIABLES kind, n, ys, K, E, t, j, used, tp, fn, pc,
+          res       \* kind "err": the errors per strategy, computed once when the call returns (<<>> before)
+vars == <<kind, n, ys, K, E, t, j, used, tp, fn, pc, res>>
 
 Strategies == {"knees", "expected", "best", "worst"}
 TSet == {<<0, 1>>, <<1, 8>>, <<1, 4>>, <<1, 2>>, <<1, 1>>}
@@ -85,13 +86,16 @@ Sides(s) ==
 D2(p, q) == (p[1] - q[1]) * (p[1] - q[1]) + (p[2] - q[2]) * (p[2] - q[2])
 \* nearest neighbour of p in b by Euclidean distance, first index on ties (numpy argmin)
 NN(p, b) == Min({m \in 1..Len(b) : \A m2 \in 1..Len(b) : D2(p, b[m]) <= D2(p, b[m2])})
-MatchOf(s) == LET a == Sides(s)[1]  b == Sides(s)[2] IN [m \in 1..Len(a) |-> NN(a[m], b)]
 SumSeq(f) == FoldLeft(LAMBDA u, w : u + w, 0, f)
-\* mean per-coordinate error: two coordinates per iterated point
-Mae(s) == LET a == Sides(s)[1]  b == Sides(s)[2]  mt == MatchOf(s)
-          IN <<SumSeq([m \in 1..Len(a) |-> Abs(a[m][1] - b[mt[m]][1]) + Abs(a[m][2] - b[mt[m]][2])]), 2 * Len(a)>>
-Mse(s) == LET a == Sides(s)[1]  b == Sides(s)[2]  mt == MatchOf(s)
-          IN <<SumSeq([m \in 1..Len(a) |-> D2(a[m], b[mt[m]])]), 2 * Len(a)>>
+\* side name, matching (1-based indices into b), and the mean per-coordinate errors (two coordinates per
+\* iterated point) as <<numerator, denominator>>
+ErrOf(s) == LET sd == Sides(s)
+                a == sd[1]
+                b == sd[2]
+                mt == [m \in 1..Len(a) |-> NN(a[m], b)]
+            IN [side |-> sd[3], match |-> mt,
+                mae |-> <<SumSeq([m \in 1..Len(a) |-> Abs(a[m][1] - b[mt[m]][1]) + Abs(a[m][2] - b[mt[m]][2])]), 2 * Len(a)>>,
+                mse |-> <<SumSeq([m \in 1..Len(a) |-> D2(a[m], b[mt[m]])]), 2 * Len(a)>>]
 ExpectedIsKnees == ToSet(E) = ToSet(KneePts)
 
 (* ======================= the machine ================================== *)
@@ -105,7 +109,7 @@ Shapes(nn) == IF nn <= 3 THEN [1..nn -> 0..YMax]
 EHeights(nn) == IF nn <= 3 \/ ErrEYAll THEN 0..YMax ELSE {0, YMax}
 
 Init ==
-    /\ j = 1 /\ used = {} /\ tp = 0 /\ fn = 0
+    /\ j = 1 /\ used = {} /\ tp = 0 /\ fn = 0 /\ res = <<>>
     /\ \/ /\ kind = "cm" /\ pc = "cm"
           /\ n \in CmN
           /\ ys = [k \in 1..n |-> 0]
@@ -126,13 +130,13 @@ CmClaim ==
        IN /\ Within(k, E[j][1]) /\ (Variant = "reclaim" \/ k \notin used)
           /\ used' = used \cup {k}
     /\ tp' = tp + 1 /\ j' = j + 1
-    /\ UNCHANGED <<kind, n, ys, K, E, t, fn, pc>>
+    /\ UNCHANGED <<kind, n, ys, K, E, t, fn, pc, res>>
 CmMiss ==
     /\ pc = "cm" /\ j <= Len(E)
     /\ LET k == NearestKnee(E[j][1])
        IN ~(Within(k, E[j][1]) /\ (Variant = "reclaim" \/ k \notin used))
     /\ fn' = fn + 1 /\ j' = j + 1
-    /\ UNCHANGED <<kind, n, ys, K, E, t, used, tp, pc>>
+    /\ UNCHANGED <<kind, n, ys, K, E, t, used, tp, pc, res>>
 CmReturn ==
     /\ pc = "cm" /\ j > Len(E)
     /\ pc' = "done"
@@ -140,15 +144,16 @@ CmReturn ==
                               ex |-> [m \in 1..Len(E) |-> E[m][1]], tnum |-> t[1], tden |-> t[2],
                               cm |-> Matrix, acc |-> Accuracy, f1 |-> F1, mccnum |-> MccNum, mccden2 |-> MccDen2,
                               maxmatch |-> MaxMatch(1, {})]))
-    /\ UNCHANGED <<kind, n, ys, K, E, t, j, used, tp, fn>>
+    /\ UNCHANGED <<kind, n, ys, K, E, t, j, used, tp, fn, res>>
 ErrReturn ==
     /\ pc = "err"
     /\ pc' = "done"
+    /\ res' = [s \in Strategies |-> ErrOf(s)]
     /\ Emit => PrintT(ToJson([kind |-> "err", n |-> n, ys |-> ys, knees |-> [k \in 1..Len(K) |-> K[k] - 1],
                               expected |-> E, perfect |-> ExpectedIsKnees,
-                              strat |-> [s \in Strategies |-> [side |-> Sides(s)[3],
-                                                               match |-> [m \in 1..Len(MatchOf(s)) |-> MatchOf(s)[m] - 1],
-                                                               mae |-> Mae(s), mse |-> Mse(s)]]]))
+                              strat |-> [s \in Strategies |->
+                                            [side |-> res'[s].side, mae |-> res'[s].mae, mse |-> res'[s].mse,
+                                             match |-> [m \in 1..Len(res'[s].match) |-> res'[s].match[m] - 1]]]]))
     /\ UNCHANGED <<kind, n, ys, K, E, t, j, used, tp, fn>>
 
 Next == CmClaim \/ CmMiss \/ CmReturn \/ ErrReturn
@@ -170,15 +175,19 @@ ScoreRange == CmDone => /\ QGe(Accuracy, QZero) /\ QLe(Accuracy, QOne)
 ScorePerfect == (CmDone /\ Perfect) => /\ QEq(Accuracy, QOne) /\ QEq(F1, QOne)
                                        /\ MccDen2 > 0 => (MccNum > 0 /\ MccNum * MccNum = MccDen2)
 ErrDone == kind = "err" /\ pc = "done"
-ErrNonNegative == ErrDone => \A s \in Strategies : Mae(s)[1] >= 0 /\ Mse(s)[1] >= 0 /\ Mae(s)[2] > 0
-ZeroOnPerfect == (ErrDone /\ ExpectedIsKnees) => \A s \in Strategies : Mae(s)[1] = 0 /\ Mse(s)[1] = 0
+ErrNonNegative == ErrDone => \A s \in Strategies : /\ res[s].mae[1] >= 0 /\ res[s].mae[2] > 0
+                                                    /\ res[s].mse[1] >= 0 /\ res[s].mse[2] > 0
+ZeroOnPerfect == (ErrDone /\ ExpectedIsKnees) => \A s \in Strategies : res[s].mae[1] = 0 /\ res[s].mse[1] = 0
+\* and conversely an error vanishes only if every iterated point coincides with a point of the other side
+ZeroOnlyIfCovered == ErrDone => \A s \in Strategies :
+                         (res[s].mse[1] = 0) <=> (ToSet(Sides(s)[1]) \subseteq ToSet(Sides(s)[2]))
 \* the iterated side of best is never longer, that of worst never shorter, than the other side
 StrategySides == ErrDone => /\ Len(Sides("best")[1]) <= Len(Sides("best")[2])
                             /\ Len(Sides("worst")[1]) >= Len(Sides("worst")[2])
                             /\ Sides("knees")[3] = "knees" /\ Sides("expected")[3] = "expected"
 \* a matched neighbour is a nearest one, and the first such
 MatchIsNearest == ErrDone => \A s \in Strategies :
-                      LET a == Sides(s)[1]  b == Sides(s)[2]  mt == MatchOf(s)
+                      LET a == Sides(s)[1]  b == Sides(s)[2]  mt == res[s].match
                       IN \A m \in 1..Len(a) : /\ \A m2 \in 1..Len(b) : D2(a[m], b[mt[m]]) <= D2(a[m], b[m2])
                                               /\ \A m2 \in 1..(mt[m] - 1) : D2(a[m], b[mt[m]]) < D2(a[m], b[m2])
 Terminates == <>(pc = "done")
